@@ -8,7 +8,7 @@ from .. import tlc
 from ..common import Report, pmap
 from ..trackdrv import scenario
 
-FAMILY = r"^diff\.|^run\.crashed|^lattice|^setup\.valid|^stat\."
+FAMILY = r"^diff\.|^vert\.reflect|^run\.crashed|^lattice|^setup\.valid|^stat\."
 DRIVERS = {"tracker-diffusion": ("harness.trackdrv", "track_trace", "TrackTrace", FAMILY),
            "tracker-statistics": ("harness.checks.c11", "stat_trace", "StatTrace", FAMILY)}
 
@@ -68,7 +68,7 @@ def scenarios(tier, seed):
     out = []
     for k in range(1200 if tier == "thorough" else 300):
         mode = k % 5
-        out.append(scenario(rng, horiz_diff=mode in (0, 1, 2), vert_diff=mode in (1, 3), vadv=False, advect=mode in (2, 4) or rng.random() < 0.3,
+        out.append(scenario(rng, horiz_diff=mode in (0, 1, 2), vert_diff=mode in (1, 3), vadv=(k % 7 == 3), advect=mode in (2, 4) or rng.random() < 0.3,
                             land=False, flat=True))
     return out
 
